@@ -5,7 +5,7 @@ symbolic boolean, the clock is an opaque token, between two attempts an adversar
 candidate (concurrent starts); Path.mkdir is the atomic test-and-create.
 H2 every writer with a symbolic `exists(target)`: a write primitive reaches an existing target on no path.
 H3 numbering and naming: apply_run_number (glob stubbed by a symbolic set of used numbers),
-build_filenames injective, the per-run index array of the parallel path a bijection.
+build_filenames injective; the per-run index array of the parallel path through witness observations.
 """
 
 from __future__ import annotations
@@ -78,7 +78,7 @@ def tasks(tier, seed):
 
 def REQUIRED_REACH(tier):
     return ["C19/dir/fresh*", "C19/dir/created_by_call*", "C19/dir/distinct_calls*", "C19/writer/*/refuses_existing", "C19/number/not_in_use*", "C19/names/injective*",
-            "C19/parallel_index/bijection*"]
+            "C19/witness/observation_files/*"]
 
 
 # -- symbolic file system ---------------------------------------------------------------------------------
@@ -325,11 +325,8 @@ def names():
     a = {str(x) for x in out.build_filenames(filename_suffix=1)}
     b = {str(x) for x in out.build_filenames(filename_suffix=2)}
     vx.prove("C19/names/runs_disjoint", not (a & b))
-    # the per-run file index array of the parallel path
-    for shape in ((3,), (2, 3), (2, 2, 2)):
-        size = int(np.prod(shape))
-        idx = np.arange(size).reshape(shape)
-        vx.prove("C19/parallel_index/bijection", sorted(idx.ravel().tolist()) == list(range(size)))
+    # (the per-run file index array of the parallel path is built inline in run_pipelines_with_dask next to the dask graph: it is
+    #  exercised by the observation witness runs - C19/witness/observation_files/* - not re-derived here)
 
 
 SAVE_LISTS = {
